@@ -177,6 +177,30 @@ func c14Run(o c14Op) (xids []uint32, result string) {
 		}
 		b, _ := mf.MarshalBinary()
 		return nil, r + fmt.Sprintf(" %x", b)
+	case "D":
+		// decode into the receiver a constructor makes, from bytes whose padding is not zero (a peer
+		// may send that): constructor-installed buffers are written by the decoders
+		switch o.Arg % 3 {
+		case 0:
+			a := of.NewActionOutput(1)
+			err := a.UnmarshalBinary([]byte{0, 0, 0, 16, 0, 0, 0, 9, 0xff, 0xe5, 0xde, 0xad, 0xbe, 0xef, 0xca, 0xfe})
+			return nil, fmt.Sprintf("%v %s", err, dump.Dump(a, dump.Options{}))
+		case 1:
+			m := of.NewPacketOut()
+			f := []byte{4, 13, 0, 40, 0, 0, 0, 7, 0xff, 0xff, 0xff, 0xff, 0, 0, 0, 3, 0, 16, 0xd1, 0xd2, 0xd3, 0xd4, 0xd5, 0xd6,
+				0, 0, 0, 16, 0, 0, 0, 9, 0xff, 0xe5, 0xa1, 0xa2, 0xa3, 0xa4, 0xa5, 0xa6}
+			err := m.UnmarshalBinary(f)
+			return nil, fmt.Sprintf("%v %s", err, dump.Dump(m, dump.Options{Skip: map[string]bool{"Xid": true}}))
+		default:
+			m := of.NewPortStatus()
+			f := make([]byte, 80)
+			copy(f, []byte{4, 12, 0, 80, 0, 0, 0, 7, 2, 0xb1, 0xb2, 0xb3, 0xb4, 0xb5, 0xb6, 0xb7})
+			for i := 16; i < 80; i++ {
+				f[i] = byte(i)
+			}
+			err := m.UnmarshalBinary(f)
+			return nil, fmt.Sprintf("%v %s", err, dump.Dump(m, dump.Options{Skip: map[string]bool{"Xid": true}}))
+		}
 	case "B":
 		ctrl := of.NewBundleControl(&of.BundleControl{BundleID: 7, Type: of.OFPBCT_OPEN_REQUEST, Flags: of.OFPBCT_ATOMIC})
 		fm := of.NewFlowMod()
@@ -202,7 +226,8 @@ func c14Run(o c14Op) (xids []uint32, result string) {
 // the first 7 operations are the core alphabet (bodies of several operations); the rest only occur
 // as single-operation bodies. E operations: even argument = a model, odd = same kind, other values.
 var c14Alphabet = []c14Op{{"G", 0}, {"H", 0}, {"E", 0}, {"E", 4}, {"P", 0}, {"F", 0}, {"B", 0}, {"E", 1}, {"E", 2}, {"E", 3}, {"E", 5}, {"E", 6}, {"E", 7},
-	{"E", 8}, {"E", 9}, {"E", 10}, {"E", 11}, {"E", 12}, {"E", 13}, {"E", 14}, {"E", 15}, {"E", 16}, {"E", 17}, {"E", 18}, {"E", 19}, {"P", 1}, {"P", 2}, {"F", 1}, {"F", 2}}
+	{"E", 8}, {"E", 9}, {"E", 10}, {"E", 11}, {"E", 12}, {"E", 13}, {"E", 14}, {"E", 15}, {"E", 16}, {"E", 17}, {"E", 18}, {"E", 19}, {"P", 1}, {"P", 2}, {"F", 1}, {"F", 2},
+	{"D", 0}, {"D", 1}, {"D", 2}}
 
 func maxOf(v uint64) uint64 {
 	switch {
@@ -381,6 +406,36 @@ func c14(r *ev.Run, replay string) {
 		r.Set("states", 1)
 		return
 	}
+	// independent values share no writable memory: every message of the controller-originated
+	// corpus (and its parser-made counterpart) is built twice and the two object graphs are compared
+	var pairs int64
+	corpus.Controller(false, r.Expired, func(string, bool) {}, func(n *wire.N) {
+		if modelSize(n) > 4000 {
+			return
+		}
+		a, err1, p1 := safeBuild(n, bind.Hist{})
+		b, err2, p2 := safeBuild(n, bind.Hist{})
+		if err1 != nil || err2 != nil || p1 != nil || p2 != nil {
+			return
+		}
+		pairs++
+		if sh := dump.SharedMemory(a, b); len(sh) > 0 {
+			r.Violation("shared-memory:"+rootSig(n)+":"+locus(strings.SplitN(strings.TrimPrefix(sh[0], "first"), " ", 2)[0]), fmt.Sprintf("two values built independently share memory: %s (%d places) in %s", sh[0], len(sh), shortModel(n)), shapeCase{Model: n.String(), Tree: n})
+		}
+		f, _ := wire.Encode(n)
+		if c05Parseable[n.K] {
+			pa, e1, q1 := safeParse(append([]byte{}, f...))
+			pb, e2, q2 := safeParse(append([]byte{}, f...))
+			if e1 == nil && e2 == nil && q1 == nil && q2 == nil && pa != nil && pb != nil {
+				pairs++
+				if sh := dump.SharedMemory(pa, pb); len(sh) > 0 {
+					r.Violation("shared-memory:parsed:"+rootSig(n)+":"+locus(strings.SplitN(strings.TrimPrefix(sh[0], "first"), " ", 2)[0]), fmt.Sprintf("two messages parsed independently share memory: %s (%d places) in %s", sh[0], len(sh), shortModel(n)), shapeCase{Model: n.String(), Tree: n})
+				}
+			}
+		}
+	})
+	r.Set("independent_value_pairs_compared", pairs)
+	r.Completed("M every message of the controller-originated corpus built twice (constructors, and through Parse): the two object graphs share no slice backing array and no struct")
 	var scenarios, execs int64
 	distinct := map[string]bool{}
 	run := func(sc c14Scenario) {
